@@ -34,7 +34,8 @@ def corpus():
     if 'corpus' in _state:
         return _state['corpus']
     out = []
-    for f in sorted(glob.glob('/repo/qa/encoding/*.ci') + glob.glob('/repo/qa/api/*.ci')):
+    qa = os.path.join(os.environ.get('PYVC_REPO', '/repo'), 'qa')
+    for f in sorted(glob.glob(qa + '/encoding/*.ci') + glob.glob(qa + '/api/*.ci')):
         for line in open(f, errors='replace'):
             p = line.strip().split(':')
             if len(p) >= 6 and p[1] == 'raw':
@@ -42,7 +43,7 @@ def corpus():
                     out.append((int(p[4], 16), bytes.fromhex(p[5]), os.path.basename(f)))
                 except ValueError:
                     pass
-    for f in sorted(glob.glob('/repo/qa/decoding/*')):
+    for f in sorted(glob.glob(qa + '/decoding/*')):
         ls = open(f, errors='replace').read().split('\n')
         t = {'update': 2, 'open': 1, 'notification': 3}.get(ls[0].split()[0] if ls and ls[0].split() else '')
         if t and len(ls) > 1:
